@@ -211,7 +211,7 @@ def _fill_kwn(ctx, m, N, bins, tag=""):
         setattr(d, name, ctx.reals(tag + name, shp, (0.0, 2.0)))
     d.n = N - 1
     m.pData = d
-    snap = {"N": N, "hist": {name: getattr(d, name) for name in shapes}, "pbm": []}
+    snap = {"N": N, "hist": {name: oarr(getattr(d, name)).copy() for name in shapes}, "pbm": []}
     for p in range(nph):
         b = bins[p]
         pbm = PBM(1e-10, 1e-9, b)
@@ -223,8 +223,8 @@ def _fill_kwn(ctx, m, N, bins, tag=""):
         pbm.PSDsize = ctx.reals(tag + "PSDsize%d" % p, b, (0.1, 2.0))
         m.PBM[p] = pbm
         m.eqAspectRatio[p] = ctx.reals(tag + "eqAR%d" % p, b + 1, (1.0, 3.0))
-        snap["pbm"].append({"min": lo, "max": hi, "bins": b, "PSD": pbm.PSD, "PSDbounds": pbm.PSDbounds, "PSDsize": pbm.PSDsize,
-                            "eqAR": m.eqAspectRatio[p]})
+        snap["pbm"].append({"min": lo, "max": hi, "bins": b, "PSD": oarr(pbm.PSD).copy(), "PSDbounds": oarr(pbm.PSDbounds).copy(),
+                            "PSDsize": oarr(pbm.PSDsize).copy(), "eqAR": oarr(m.eqAspectRatio[p]).copy()})
     return snap
 
 
@@ -250,7 +250,7 @@ def _fname(io, base, fname):
     return fname if fname is not None else (base if io == "file" else base + ".npz")
 
 
-def roundtrip_kwn(ctx, nph=2, nel=1, N=2, bins=(2, 3), io="file", psdrec=False, fname=None, two=None):
+def roundtrip_kwn(ctx, nph=2, nel=1, N=2, bins=(2, 3), io="file", psdrec=False, fname=None, two=None, fresh_cfg=None):
     """PrecipitateModel.save -> fresh PrecipitateModel.load restores every history array, n, and per phase PSD,
     PSDbounds, PSDsize, min/max/bins and eqAspectRatio -- whatever the file name (with or without .npz, dots inside);
     two saves of one run under two names (mid-run, later) each give back the state they were made from"""
@@ -259,7 +259,31 @@ def roundtrip_kwn(ctx, nph=2, nel=1, N=2, bins=(2, 3), io="file", psdrec=False, 
     if psdrec:
         m.setPSDrecording(True)
     snap = _fill_kwn(ctx, m, N, bins)
-    fresh = lambda: PrecipitateModel(phases=list(phases), elements=list(elements))
+    settings = []
+
+    def fresh():
+        mm = PrecipitateModel(phases=list(phases), elements=list(elements))
+        if fresh_cfg is not None:
+            # size class settings of the model the file is loaded into: they are configuration, not saved data
+            mm.setPBMParameters(cMin=2e-10, cMax=5e-9, bins=7, minBins=fresh_cfg["minBins"], maxBins=fresh_cfg["maxBins"], adaptive=fresh_cfg["adaptive"])
+            mm.setPSDrecording(fresh_cfg["record"])
+            for p in range(nph):
+                if fresh_cfg.get("rows"):
+                    _fill_psdrec(ctx, mm.PBM[p], fresh_cfg["rows"], fresh_cfg["maxBins"], tag="fresh%d_" % p)
+                b = mm.PBM[p]
+                settings.append((b, b.minBins, b.maxBins, b._adaptiveBinSize, b._record, b.originalMin, b.originalMax, b.originalBins,
+                                 _cp(b._recordedTime), _cp(b._recordedBins), _cp(b._recordedPSD)))
+        return mm
+
+    def check_settings(mm):
+        for p in range(nph):
+            b = mm.PBM[p]
+            obj, minB, maxB, adapt, rec, omin, omax, obins, rt, rb, rp = settings[p]
+            ctx.prove("size class settings (min/max number of classes, adaptive sizing, recording flag) are those of the model loaded into",
+                      b.minBins == minB and b.maxBins == maxB and b._adaptiveBinSize == adapt and b._record == rec)
+            ctx.prove("original grid settings of the model loaded into are kept", b.originalMin == omin and b.originalMax == omax and b.originalBins == obins)
+            ctx.prove("recorded size distributions of the model loaded into are kept",
+                      ctx.all([same_arr(ctx, b._recordedTime, rt), same_arr(ctx, b._recordedBins, rb), same_arr(ctx, b._recordedPSD, rp)]))
     if two is not None:
         with file_layer(ctx, [_mod_generic]) as path_of:
             m.save(path_of(two[0]))
@@ -279,6 +303,88 @@ def roundtrip_kwn(ctx, nph=2, nel=1, N=2, bins=(2, 3), io="file", psdrec=False, 
             m.save(fn)
             m2.load(fn)
     _check_kwn(ctx, m2, snap)
+    if fresh_cfg is not None:
+        check_settings(m2)
+
+
+class _ContinueBackend:
+    """multicomponent backend for the setup() of a loaded model: a deterministic backend asked again at the recorded state
+    answers what it answered when the last row was recorded (equilibrium compositions = the loaded last row); growth
+    rates and interfacial compositions of the size classes are arbitrary"""
+    numElements = 3
+
+    def __init__(self, ctx, model, nel):
+        self.ctx, self.m, self.nel, self.k = ctx, model, nel, 0
+
+    def getGrowthAndInterfacialComposition(self, x, T, dG, R, gExtra, precPhase=None, removeCache=False, searchDir=None):
+        n = len(_np.atleast_1d(oarr(R)))
+        k = self.k; self.k += 1
+        p = list(self.m.phases).index(precPhase)
+        d = self.m.pData
+        c = self.ctx
+        return (c.reals("be%d_growth" % k, n, (-1.0, 1.0)), c.reals("be%d_xA" % k, (n, self.nel), (0.01, 0.2)), c.reals("be%d_xB" % k, (n, self.nel), (0.2, 0.8)),
+                oarr(d.xEqAlpha[d.n, p]).copy(), oarr(d.xEqBeta[d.n, p]).copy())
+
+
+def kwn_continue(ctx, nph=1, nel=2, ncls=2, N=2, io="file"):
+    """a loaded precipitation model continues from the loaded state: after save -> load into a fresh model of the same
+    configuration, the first thing the next solve() does -- the real PrecipitateModel.setup() -- leaves the size
+    distribution of every phase, the grids, the step counter and every recorded history row as loaded"""
+    from harness.kwn_common import mk_kwn
+    T = ctx.real("T_iso", (500.0, 900.0)); ctx.assume(T > 0)
+
+    m, info = mk_kwn(ctx, nph, nel, ncls, hist=N)
+
+    def configure(mm, src):
+        """the same configuration (parameters, constraints, temperature, alloy composition) as the saved model"""
+        mm.removeCache = False
+        mm.matrixParameters.volume.Vm = src.matrixParameters.volume.Vm
+        mm.matrixParameters.volume.a = src.matrixParameters.volume.a
+        for p in range(nph):
+            a, b = src.precipitateParameters[p], mm.precipitateParameters[p]
+            b.volume.Vm = a.volume.Vm
+            b._gamma = 0.1
+            b.nucleation._gamma = 0.1
+            b.nucleation._volumeFactor = a.nucleation._volumeFactor
+            b.nucleation._areaFactor = a.nucleation._areaFactor
+            b.nucleation._GBk = a.nucleation._GBk
+            b.infinitePrecipitateDiffusion = a.infinitePrecipitateDiffusion
+        mm.constraints.minNucleateDensity = src.constraints.minNucleateDensity
+        mm.constraints.minComposition = src.constraints.minComposition
+        mm.matrixParameters._initComposition = info["x0"]
+        mm.temperatureParameters.setIsothermalTemperature(T)
+    configure(m, m)
+    d = m.pData
+    shapes = _history_shapes(N, nph, nel)
+    for name, shp in shapes.items():
+        if name in ("time", "composition", "volFrac", "fconc"):
+            continue
+        setattr(d, name, ctx.reals("rec_" + name, shp, (0.0, 2.0)))
+    d.temperature = np.zeros(N) + T                       # the recorded temperatures follow the (isothermal) schedule
+    for p in range(nph):
+        ctx.assume(d.drivingForce[N - 1, p] >= 0, "last recorded state: precipitates stable (for an unstable, absent phase kawin records zero "
+                                                   "equilibrium compositions, by the same rule it applies again)")
+    if N == 1:
+        d.time = ctx.reals("time", 1, (0.0, 1.0))
+    snap = {"N": N, "hist": {name: oarr(getattr(d, name)).copy() for name in shapes}, "pbm": []}
+    for p in range(nph):
+        b = m.PBM[p]
+        snap["pbm"].append({"min": b.min, "max": b.max, "bins": b.bins, "PSD": oarr(b.PSD).copy(), "PSDbounds": oarr(b.PSDbounds).copy(),
+                            "PSDsize": oarr(b.PSDsize).copy(), "eqAR": oarr(m.eqAspectRatio[p]).copy()})
+    m2 = PrecipitateModel(phases=list(m.phases), elements=list(m.elements))
+    configure(m2, m)
+    if io == "dict":
+        m2.fromDict(m.toDict())
+    else:
+        with file_layer(ctx, [_mod_generic]) as path_of:
+            m.save(path_of("midrun")); m2.load(path_of("midrun"))
+    _check_kwn(ctx, m2, snap, tag="after load: ")
+    m2.therm = _ContinueBackend(ctx, m2, nel)
+    m2._calcNucleationRate = lambda t, x, Y: Y           # nucleation quantities of the recorded state: as recorded
+    m2.setup()                                            # what solve() does first
+    _check_kwn(ctx, m2, snap, tag="after setup of the loaded model: ")
+    ctx.prove("after setup of the loaded model: histories keep their length",
+              all(len(getattr(m2.pData, name)) == N for name in shapes))
 
 
 def _fill_diff(ctx, m, nel, N, R, record, tag=""):
@@ -287,7 +393,16 @@ def _fill_diff(ctx, m, nel, N, R, record, tag=""):
     if record:
         m._recordedX = ctx.reals(tag + "recX", (R, nel, N), (0.0, 1.0))
         m._recordedTime = ctx.reals(tag + "recT", R, (0.0, 100.0))
-    return {"t": m.t, "x": m.x, "recX": m._recordedX, "recT": m._recordedTime}
+    return _snap_diff(m)
+
+
+def _cp(a):
+    """independent copy of an array (the symbolic file layer hands the very same array objects to the loaded model)"""
+    return None if a is None else oarr(a).copy()
+
+
+def _snap_diff(m):
+    return {"t": m.t, "x": _cp(m.x), "recX": _cp(m._recordedX), "recT": _cp(m._recordedTime)}
 
 
 def _check_diff(ctx, m2, snap, tag=""):
@@ -301,7 +416,8 @@ def _check_diff(ctx, m2, snap, tag=""):
                   and len(m2._recordedX) == len(snap["recX"]) and len(m2._recordedTime) == len(snap["recT"]))
 
 
-def roundtrip_diff(ctx, nel=2, N=3, R=2, record=True, io="file", disable=False, post=False, fresh_record=None, fname=None, two=None, remove=False):
+def roundtrip_diff(ctx, nel=2, N=3, R=2, record=True, io="file", disable=False, post=False, fresh_record=None, fname=None, two=None, remove=False,
+                   setup=False):
     """DiffusionModel.save -> fresh DiffusionModel.load restores t, x and the recorded profiles/times -- also when
     recording was switched off (disableRecording keeps the history recorded so far) before saving, optionally with one
     more unrecorded step in between, whether or not the fresh model records, whatever the file name (with or without
@@ -309,6 +425,11 @@ def roundtrip_diff(ctx, nel=2, N=3, R=2, record=True, io="file", disable=False, 
     els = ["NI"] + _EL[:nel]
     m = DiffusionModel([0.0, 1.0], N, list(els), ["FCC_A1"], record=record)
     _fill_diff(ctx, m, nel, N, R, record)
+    if setup:
+        for k in range(N):
+            for e in range(nel):
+                ctx.assume(m.x[e, k] >= 0, "saved compositions are valid")
+            ctx.assume(sum(m.x[e, k] for e in range(nel)) <= 1, "saved compositions are valid (sum <= 1 at every node)")
     if remove:
         m.removeRecordedData()          # recording stays on, the history recorded so far is dropped
         ctx.prove("removeRecordedData leaves no recorded history", m._recordedX is None and m._recordedTime is None)
@@ -323,7 +444,7 @@ def roundtrip_diff(ctx, nel=2, N=3, R=2, record=True, io="file", disable=False, 
         if disable:
             ctx.prove("an unrecorded step leaves the recorded history alone",
                       ctx.all([same_arr(ctx, m._recordedX, hist[0]), same_arr(ctx, m._recordedTime, hist[1])]))
-    snap = {"t": m.t, "x": m.x, "recX": m._recordedX, "recT": m._recordedTime}
+    snap = _snap_diff(m)
     fresh = lambda: DiffusionModel([0.0, 1.0], N, list(els), ["FCC_A1"], record=record if fresh_record is None else fresh_record)
     if two is not None:
         with file_layer(ctx, [_mod_generic]) as path_of:
@@ -336,6 +457,10 @@ def roundtrip_diff(ctx, nel=2, N=3, R=2, record=True, io="file", disable=False, 
         _check_diff(ctx, m2, snap2, tag="second save: ")
         return
     m2 = fresh()
+    if setup:
+        # the fresh model of the same configuration has its own initial-profile recipe (what a first solve() would build)
+        for e in els[1:]:
+            m2.setCompositionLinear(0.1, 0.2, e)
     if io == "dict":
         m2.fromDict(m.toDict())
     else:
@@ -344,17 +469,24 @@ def roundtrip_diff(ctx, nel=2, N=3, R=2, record=True, io="file", disable=False, 
             m.save(fn)
             m2.load(fn)
     _check_diff(ctx, m2, snap)
+    if setup:
+        # what the next solve() does first: the loaded state must be continued, not rebuilt, shifted or re-recorded
+        m2.setup()
+        _check_diff(ctx, m2, snap, tag="after setup of the loaded model: ")
+        m2.setup()
+        _check_diff(ctx, m2, snap, tag="after a second setup: ")
 
 
-def roundtrip_strength(ctx, nph=2, N=2, compressed=True):
-    """StrengthModel.save -> fresh StrengthModel.load restores rss, ls and the solid-solution strength history"""
+def roundtrip_strength(ctx, nph=2, N=2, compressed=True, fname="strength.npz"):
+    """StrengthModel.save -> fresh StrengthModel.load under the SAME file name (with the .npz extension, without it, with
+    dots inside) restores rss, ls and the solid-solution strength history"""
     s = StrengthModel()
     s.rss = ctx.reals("rss", (N, nph), (0.0, 2.0))
     s.ls = ctx.reals("ls", (N, nph), (0.0, 2.0))
     s.solidStrength = ctx.reals("ss", N, (0.0, 2.0))
     s2 = StrengthModel()
     with file_layer(ctx, [_mod_strength]) as path_of:
-        fn = path_of("strength.npz")
+        fn = path_of(fname)
         s.save(fn, compressed)
         s2.load(fn)
     obs(ctx, "rss", s2.rss)
@@ -1070,7 +1202,7 @@ def rebuilt(ctx, ne=2, logX=False, suffix=False, options="own"):
 
 # ----------------------------------------------------------------------------------------------------------------------
 
-_F_RT = [DiffusionModel.removeRecordedData, DiffusionModel.disableRecording, DiffusionModel.postProcess, DiffusionModel.record, GenericModel.save, GenericModel.load, PrecipitateModel.toDict, PrecipitateModel.fromDict, PrecipitateBase.toDict,
+_F_RT = [DiffusionModel.setup, DiffusionModel.setCompositionLinear, DiffusionModel.removeRecordedData, DiffusionModel.disableRecording, DiffusionModel.postProcess, DiffusionModel.record, GenericModel.save, GenericModel.load, PrecipitateModel.toDict, PrecipitateModel.fromDict, PrecipitateBase.toDict,
          PrecipitateBase.fromDict, PrecipitationData.toDict, PrecipitationData.fromDict, DiffusionModel.toDict,
          DiffusionModel.fromDict, PBM.__init__, PBM.reset, StrengthModel.save, StrengthModel.load, PBM.saveRecordedPSD,
          PBM.loadRecordedPSD]
@@ -1155,10 +1287,15 @@ HARNESSES = [
                               {"nph": 2, "nel": 1, "N": 3, "bins": [3, 2], "io": "dict", "psdrec": True},
                               {"nph": 2, "nel": 2, "N": 2, "bins": [2, 2], "io": "file.npz"},
                               {"nph": 1, "nel": 1, "N": 2, "bins": [2], "io": "file", "fname": "snap_t0.25h"},
+                              {"nph": 2, "nel": 1, "N": 1, "bins": [2, 3], "io": "file", "fresh_cfg": {"minBins": 4, "maxBins": 8, "adaptive": False, "record": True}},
+                              {"nph": 1, "nel": 1, "N": 2, "bins": [3], "io": "dict", "fresh_cfg": {"minBins": 2, "maxBins": 6, "adaptive": True, "record": False}},
+                              {"nph": 1, "nel": 1, "N": 1, "bins": [2], "io": "file", "fresh_cfg": {"minBins": 2, "maxBins": 3, "adaptive": False, "record": True, "rows": 2}},
                               {"nph": 1, "nel": 1, "N": 1, "bins": [2], "two": ["snap_t0.25h", "snap_t0.50h"]},
                               {"nph": 2, "nel": 1, "N": 1, "bins": [2, 3], "two": ["run.npz", "run.npz.bak"]}],
                     "thorough": [{"nph": p, "nel": e, "N": n, "bins": [2, 3, 4][:p], "io": io, "psdrec": r}
                                  for p in (1, 2, 3) for e in (1, 2, 3) for n in (1, 4) for io, r in (("file", False), ("dict", True))] +
+                                [{"nph": 2, "nel": 1, "N": 2, "bins": [2, 3], "io": io, "fresh_cfg": {"minBins": mb, "maxBins": 2 * mb + 1, "adaptive": ad, "record": rec, "rows": rows}}
+                                 for io in ("file", "dict") for mb in (2, 4) for ad in (True, False) for rec, rows in ((False, 0), (True, 0), (True, 2))] +
                                 [{"nph": 1, "nel": 1, "N": 2, "bins": [2], "io": "file", "fname": f} for f in _NAMES] +
                                 [{"nph": 2, "nel": 1, "N": 2, "bins": [2, 3], "two": list(t)} for t in _NAME_PAIRS]}),
     Harness("C20.roundtrip_diff", roundtrip_diff, functions=_F_RT, assumptions=_A_RT, stubs=_S_FILE,
@@ -1172,6 +1309,10 @@ HARNESSES = [
                               {"nel": 1, "N": 3, "R": 2, "record": True, "io": "file.npz", "disable": True, "post": True, "fresh_record": True},
                               {"nel": 1, "N": 2, "R": 2, "record": True, "io": "dict", "post": True},
                               {"nel": 2, "N": 2, "R": 1, "record": False, "io": "file"},
+                              {"nel": 1, "N": 2, "R": 2, "record": True, "io": "file", "setup": True},
+                              {"nel": 2, "N": 2, "R": 1, "record": True, "io": "dict", "setup": True, "fresh_record": False},
+                              {"nel": 1, "N": 3, "R": 1, "record": False, "io": "file.npz", "setup": True},
+                              {"nel": 1, "N": 2, "R": 2, "record": True, "io": "file", "setup": True, "disable": True},
                               {"nel": 1, "N": 3, "R": 1, "record": False, "io": "file.npz", "fresh_record": True},
                               {"nel": 1, "N": 2, "R": 2, "record": True, "io": "file", "remove": True},
                               {"nel": 1, "N": 2, "R": 2, "record": True, "io": "file", "remove": True, "disable": True, "fresh_record": False},
@@ -1188,12 +1329,16 @@ HARNESSES = [
                                  for e in (1, 2) for r in (2, 4) for io in ("file", "dict") for po in (False, True) for fr in (True, False)] +
                                 [{"nel": e, "N": 3, "R": 2, "record": rec, "io": io, "remove": rm, "fresh_record": fr}
                                  for e in (1, 2) for rec, rm in ((False, False), (True, True)) for io in ("file", "file.npz", "dict") for fr in (True, False)] +
+                                [{"nel": e, "N": 3, "R": 2, "record": rec, "io": io, "setup": True, "fresh_record": fr}
+                                 for e in (1, 2) for rec in (True, False) for io in ("file", "dict") for fr in (True, False)] +
                                 [{"nel": 1, "N": 2, "R": 2, "record": True, "io": "file", "fname": f} for f in _NAMES] +
                                 [{"nel": 2, "N": 3, "R": 2, "record": True, "two": list(t)} for t in _NAME_PAIRS]}),
     Harness("C20.roundtrip_strength", roundtrip_strength, functions=_F_RT, assumptions=["the strength model was updated at least once (rss, ls, solidStrength are arrays)"],
             stubs=_S_FILE, bounds={"phases": "nph", "history length": "N"},
-            params={"quick": [{"nph": 2, "N": 2, "compressed": True}, {"nph": 1, "N": 3, "compressed": False}],
-                    "thorough": [{"nph": p, "N": n, "compressed": c} for p in (1, 2, 3) for n in (1, 4) for c in (True, False)]}),
+            params={"quick": [{"nph": 2, "N": 2, "compressed": True}, {"nph": 1, "N": 3, "compressed": False},
+                              {"nph": 1, "N": 2, "compressed": True, "fname": "strength"}, {"nph": 2, "N": 1, "compressed": False, "fname": "strength_t0.5"}],
+                    "thorough": [{"nph": p, "N": n, "compressed": c, "fname": f} for p in (1, 2, 3) for n in (1, 4) for c in (True, False)
+                                 for f in ("strength.npz", "strength", "strength_t0.5", "a.b.c")]}),
     Harness("C20.roundtrip_psdrec", roundtrip_psdrec, functions=_F_RT + [PrecipitateModel.saveRecordedPSD], assumptions=["recording enabled"], stubs=_S_FILE,
             bounds={"recorded frames": "K", "max classes": "maxb", "phases (model level)": 2},
             params={"quick": [{"K": 2, "maxb": 3, "compressed": True, "fname": "psd.npz"}, {"K": 1, "maxb": 2, "compressed": False, "fname": "psd.npz"},
@@ -1262,4 +1407,19 @@ HARNESSES = [
             params={"quick": [{"ne": 2, "logX": False, "suffix": False}, {"ne": 3, "logX": True, "suffix": True}, {"ne": 2, "logX": True, "suffix": True},
                               {"ne": 2, "logX": False, "suffix": True, "options": "default"}, {"ne": 3, "logX": False, "suffix": False, "options": "default"}],
                     "thorough": [{"ne": ne, "logX": lx, "suffix": s, "options": o} for ne in (2, 3) for lx in (False, True) for s in (False, True) for o in ("own", "default")]}),
+]
+
+
+# harnesses waiting for a decision (not run by ./vcheck C20): `python -c` / tools may import them from here
+PENDING = [
+    Harness("C20.kwn_continue", kwn_continue, functions=[GenericModel.save, GenericModel.load, PrecipitateModel.toDict, PrecipitateModel.fromDict,
+                                                         PrecipitateModel.setup, PrecipitateBase.setup, PrecipitateModel._setupAspectRatio],
+            assumptions=["same configuration for the saved and the fresh model (same symbolic parameters, isothermal, alloy composition = first recorded row)",
+                         "uniform grid per phase, recorded temperatures follow the schedule, spherical precipitates (aspect ratio 1)",
+                         "driving force of the last recorded row >= 0"],
+            stubs=_S_FILE + ["multicomponent backend: equilibrium compositions = the loaded last row (deterministic backend at the recorded state), "
+                             "growth rates / interfacial compositions arbitrary", "_calcNucleationRate: leaves the recorded nucleation quantities as they are"],
+            bounds={"phases": "nph", "solutes": 2, "size classes": "ncls", "history length": "N"},
+            params={"quick": [{"nph": 1, "nel": 2, "ncls": 2, "N": 2, "io": "file"}, {"nph": 2, "nel": 2, "ncls": 2, "N": 1, "io": "dict"}],
+                    "thorough": [{"nph": p, "nel": 2, "ncls": c, "N": n, "io": io} for p in (1, 2) for c in (2, 3) for n in (1, 3) for io in ("file", "dict")]}),
 ]
